@@ -490,7 +490,12 @@ def o_C15(ctx):
 def o_C17(ctx):
     v = []
     for s, c, t in parser_cases(ctx):
-        if c.entry != "txouts" or res_of(t) != ("ok",) or c.brk >= 0 or first(t, "x_accpanic") == "1":
+        if c.entry != "txouts" or res_of(t) != ("ok",) or c.brk >= 0:
+            continue
+        if first(t, "x_iterpanic") == "1":
+            v.append(([c.id], "iterating the parsed outputs panics"))
+            continue
+        if first(t, "x_accpanic") == "1" or first(t, "n") is None:
             continue
         n = int(first(t, "n"))
         outs = [e.split(",", 2)[2] for e in allv(t, "ev") if e.startswith("5,")]
